@@ -92,7 +92,7 @@ def _analyses():
             "has its own VJP and VSpace arithmetic has both rules (A1.helpers), backward closures are re-usable (A10).",
         ),
         "C08": (
-            [kt.trace_fn, kt.wrapper, kt.find_top, kt.new_trace],
+            [kt.trace_fn, kt.wrapper, kt.find_top, kt.new_trace, ka.operators, km.products],
             "No perturbation confusion: the three mechanisms of tracer.py on all paths - inner traces get strictly larger ids (A12.bal), only top-trace boxes are unboxed and the "
             "list resets on strictly greater / appends on equal (A12.top), dependence by id equality, re-entry of the wrapper for lower levels, answer boxed with the arguments' trace (A13.unbox).",
         ),
